@@ -14,7 +14,8 @@ Open Scope Z_scope.
 Inductive rc := RNone | RNaN | RName.
 Definition rc_null (r : rc) : bool := match r with RName => false | _ => true end.   (* rc is None or pd.isnull(rc) *)
 Record grow := { gid : Z; gty : nat; gmem : list Z; grc : rc }.
-Record st := { grp : list grow; tab : nat -> list (Z * Z) }.      (* tab et = [(index, name)] *)
+(* tab et = [(index, name)]; element types: 0 load, 1 sgen, 2 line, 3 switch; lsw = the line switches (switch index, line index) *)
+Record st := { grp : list grow; tab : nat -> list (Z * Z); lsw : list (Z * Z) }.
 
 Inductive result (A : Type) := Ok (a : A) | Err (s : string).
 Arguments Ok {A} a. Arguments Err {A} s.
@@ -32,9 +33,10 @@ Definition garbage : Z := -1.       (* a generated "<et>_<idx>_<uuid>" string in
 
 Definition ids (s : st) (et : nat) : list Z := map fst (tab s et).
 Definition names (s : st) (et : nat) : list Z := map snd (tab s et).
-Definition set_grp (s : st) (g : list grow) : st := {| grp := g; tab := tab s |}.
+Definition set_grp (s : st) (g : list grow) : st := {| grp := g; tab := tab s; lsw := lsw s |}.
 Definition set_tab (s : st) (et : nat) (v : list (Z * Z)) : st :=
-  {| grp := grp s; tab := fun e => if Nat.eqb e et then v else tab s e |}.
+  {| grp := grp s; tab := fun e => if Nat.eqb e et then v else tab s e; lsw := lsw s |}.
+Definition set_lsw (s : st) (v : list (Z * Z)) : st := {| grp := grp s; tab := tab s; lsw := v |}.
 
 (* _set_multiple_entries on net.group (create/_utils.py:371 drops the all-null columns of the new rows before the concat):
    null reference_column rows appended to a non-empty table carry NaN, NaN of older rows is turned into None *)
@@ -123,11 +125,35 @@ Definition detach (s : st) (et : nat) (idl : list Z) (sel : option (list Z)) : s
     else [r]) (grp s)).
 
 (* drop_elements_simple(net, et, ids) *)
-Definition drop_elements (s : st) (et : nat) (idl : list Z) : result st :=
+Definition drop_simple (s : st) (et : nat) (idl : list Z) : result st :=
   let s1 := detach s et idl None in
   if forallb (fun i => zin i (ids s et)) idl
   then Ok (set_tab s1 et (filter (fun p => negb (zin (fst p) idl)) (tab s et)))
   else Err "KeyError".
+(* grid_modification.py:737 drop_lines: the line switches at the lines are detached from the groups AS SWITCHES and dropped,
+   then the lines are detached and dropped *)
+Definition ET_LINE : nat := 2.
+Definition ET_SWITCH : nat := 3.
+Definition drop_lines (s : st) (idl : list Z) : result st :=
+  match idl with
+  | [] => Ok s
+  | _ =>
+    let i := map fst (filter (fun p => zin (snd p) idl) (lsw s)) in
+    let s1 := detach s ET_SWITCH i None in
+    let s1 := set_lsw (set_tab s1 ET_SWITCH (filter (fun p => negb (zin (fst p) i)) (tab s1 ET_SWITCH)))
+                      (filter (fun p => negb (zin (fst p) i)) (lsw s1)) in
+    let s2 := detach s1 ET_LINE idl None in
+    if forallb (fun x => zin x (ids s ET_LINE)) idl
+    then Ok (set_tab s2 ET_LINE (filter (fun p => negb (zin (fst p) idl)) (tab s2 ET_LINE)))
+    else Err "KeyError"
+  end.
+Definition drop_elements (s : st) (et : nat) (idl : list Z) : result st :=
+  if Nat.eqb et ET_LINE then drop_lines s idl
+  else if Nat.eqb et ET_SWITCH
+       then (match drop_simple s et idl with
+             | Ok s' => Ok (set_lsw s' (filter (fun p => negb (zin (fst p) idl)) (lsw s')))
+             | e => e end)
+       else drop_simple s et idl.
 
 (* reindex_elements(net, et, lookup): table index, then group link of the index based rows *)
 Definition lookup (lk : list (Z * Z)) (k : Z) : option Z :=
